@@ -872,36 +872,63 @@ def run_registry_case(p):
     return None
 
 
+CONST_POOL = ['t', None, 0, '', (1, 2), [], [3, 4], False]
+
+
 def run_infer_case(p):
-    """C11: infer(entity(T(f1=e1, f2=e2), conditions)) builds one new instance per satisfying assignment, from that
-    assignment, reusing the bound objects as field values"""
+    """C11: infer(entity(T(f1=e1, f2=e2, ...), conditions)) builds one new instance per satisfying assignment, from that
+    assignment: variables, attribute expressions, constants (falsy, None, iterable) and nested constructors as arguments;
+    bodies with disjunction / negation; zero-solution bodies; a class whose instances are falsy"""
     from entity_query_language import symbolic_mode, rule_mode, let, an, entity, infer, and_
     O.reset_registry()
     rng = random.Random(p['seed'])
     d0, d1 = O.make_domain(rng, 3), O.make_domain(rng, 3)
-    cond = O.gen_cond(rng, 2, 1, vocab=('cmp', 'name'), neg=False)
+    cond = O.gen_cond(rng, 2, p.get('depth', 2), vocab=('cmp', 'name'), neg=p.get('neg', True))
     if len(O.vars_of(cond)) < 2:
-        cond = ('and', cond, ('cmp', 'le', ('attr', 0, 'size'), ('attr', 1, 'size')))
-    use_attr = rng.random() < 0.5
+        cond = ('and', cond, ('cmp', rng.choice(['le', 'ne', 'gt']), ('attr', 0, 'size'), ('attr', 1, 'size')))
+    # the head mentions every variable of the rule (the property's precondition): a = x, b = y or an attribute of y, and a
+    # constant in the third field.  Nested constructor arguments are not generated: whether a nested T2(...) in a head is
+    # constructed or matched against existing instances is not settled by the property (see DESIGN.md, observations).
+    b_kind = rng.choice(['var', 'attr'])
+    a_kind = 'var'
+    const = rng.choice(CONST_POOL)
+    tag = rng.choice(CONST_POOL)
+    T = rng.choice([O.Built, O.Built, O.BuiltB, O.BuiltEmpty])
     try:
         with rule_mode():
             x = let(type_=O.Item, domain=d0)
             y = let(type_=O.Item, domain=d1)
-            head = O.Built(a=x, b=(y.name if use_attr else y), tag='t')
+            a_arg = x if a_kind == 'var' else O.BuiltC(a=x, tag='inner')
+            b_arg = y if b_kind == 'var' else (y.name if b_kind == 'attr' else const)
+            head = T(a=a_arg, b=b_arg, tag=tag)
             q = infer(entity(head, O.build(cond, [x, y])))
         got = list(q.evaluate())
-        want = [(a, (b.name if use_attr else b)) for a in d0 for b in d1 if O.holds(cond, {0: a, 1: b})]
+        sat = [(a, b) for a in d0 for b in d1 if O.holds(cond, {0: a, 1: b})]
     except Exception as e:  # noqa
-        return {'exception': repr(e), 'trace': traceback.format_exc(limit=5), 'signature_kind': 'exception'}
-    bad = [g for g in got if not isinstance(g, O.Built)]
+        return {'exception': repr(e), 'trace': traceback.format_exc(limit=5), 'signature_kind': 'exception',
+                'head': (a_kind, b_kind, repr(const), repr(tag), T.__name__), 'condition': repr(cond)}
+    info = {'head': (a_kind, b_kind, repr(const), repr(tag), T.__name__), 'condition': repr(cond)}
+    bad = [g for g in got if type(g) is not T]
     if bad:
-        return {'what': 'not instances of the head class', 'got': repr(bad[:2]), 'signature_kind': 'type'}
-    gk = sorted((id(g.a), id(g.b) if not use_attr else hash(g.b), g.tag) for g in got)
-    wk = sorted((id(a), id(b) if not use_attr else hash(b), 't') for a, b in want)
+        return dict(info, what='not instances of the head class', got=repr(bad[:2]), signature_kind='type')
+
+    def key_a(g):
+        if a_kind == 'var':
+            return ('obj', id(g.a))
+        return ('nested', type(g.a).__name__, id(getattr(g.a, 'a', None)), getattr(g.a, 'tag', None))
+
+    def key_b(v):
+        return ('id', id(v)) if b_kind in ('var', 'const') else ('val', v)
+    gk = sorted((key_a(g), key_b(g.b), id(g.tag)) for g in got)
+    wk = sorted(((('obj', id(a)) if a_kind == 'var' else ('nested', 'BuiltC', id(a), 'inner')),
+                 key_b(b if b_kind == 'var' else (b.name if b_kind == 'attr' else const)), id(tag)) for a, b in sat)
     if gk != wk:
-        return {'condition': repr(cond), 'built': len(got), 'want': len(want), 'signature_kind': 'instances'}
+        return dict(info, built=len(got), want=len(sat), signature_kind='instances',
+                    sample=repr([(getattr(g.a, 'name', g.a), g.b, g.tag) for g in got[:3]]))
     if len(set(map(id, got))) != len(got):
-        return {'what': 'the same instance returned twice', 'signature_kind': 'identity'}
+        return dict(info, what='the same instance returned twice', signature_kind='identity')
+    if a_kind == 'nested' and len({id(g.a) for g in got}) != len(got):
+        return dict(info, what='a nested instance is shared between two results', signature_kind='nested-identity')
     return None
 
 
